@@ -215,3 +215,117 @@ def install(it):
     it.concat = concat
     it.ROPES = True
     return it
+
+
+# ---------------------------------------------------------------- mutable byte buffers with opaque content
+class SymBuf:
+    """the content of a `bytearray` that holds opaque (symbolic) bytes: it lives inside the K object that stands for the bytearray (K.v), so the
+    buffer keeps its identity when it turns from concrete to symbolic.  Only what the model understands is allowed; every other use of the
+    payload is an analysis error, never a guess."""
+    def __init__(self, rope):
+        self.rope = rope
+
+    def __len__(self):
+        return self.rope.n
+
+    def __bool__(self):
+        return self.rope.n > 0
+
+    def __repr__(self):
+        return f'SymBuf({self.rope!r})'
+
+    def _no(self, *a, **k):
+        raise Fail('operation on a bytearray with symbolic content that the model does not follow')
+    __add__ = __radd__ = __mul__ = __iter__ = __getitem__ = __setitem__ = __eq__ = __lt__ = __contains__ = _no
+    __hash__ = None
+
+
+def buf_rope(it, k):
+    """the Rope of a bytearray value (concrete or symbolic)"""
+    if isinstance(k.v, SymBuf):
+        return k.v.rope
+    return Rope([(K(bytes(k.v)), len(k.v))])
+
+
+def buf_store(it, k, lo, hi, value):
+    """k[lo:hi] = value on a bytearray K (any lengths: the buffer shrinks / grows as Python's does)"""
+    rv = Rope.of(it, value.rope_value(it) if isinstance(value, MemView) else value)
+    if rv is None:
+        raise Fail('slice assignment of a byte string of unknown length into a bytearray')
+    cur = buf_rope(it, k)
+    new = Rope(cur.cut(it, 0, lo).parts + rv.parts + cur.cut(it, hi, cur.n).parts)
+    if new.concrete():
+        k.v = bytearray(b''.join(bytes(v.v) for v, _ in new.parts))
+    else:
+        k.v = SymBuf(new)
+
+
+class MemView:
+    """memoryview over a bytearray: a window that shares the buffer (writes through the view reach it)"""
+    not_none = True
+
+    def __init__(self, target, lo, hi):
+        self.target, self.lo, self.hi = target, lo, hi
+
+    def abs_key(self):
+        return ('memview', id(self.target), self.lo, self.hi)
+
+    def abs_len(self, it):
+        return K(self.hi - self.lo)
+
+    def abs_truth(self, it):
+        return self.hi > self.lo
+
+    def abs_isinstance(self, it, ty):
+        nm = getattr(ty, 'name', None)
+        return nm == 'memoryview' if nm in ('memoryview', 'bytes', 'bytearray', 'str', 'int', 'list', 'tuple') else None
+
+    def rope_value(self, it):
+        return buf_rope(it, self.target).cut(it, self.lo, self.hi).simplify()
+
+    def abs_slice(self, it, lo, hi, st, n):
+        if not all(isinstance(x, K) for x in (lo, hi, st)) or st.v not in (None, 1):
+            raise Fail('symbolic / strided slice of a memoryview')
+        a, b, _ = slice(lo.v, hi.v).indices(self.hi - self.lo)
+        return MemView(self.target, self.lo + a, self.lo + max(a, b))
+
+    def abs_item(self, it, i, n):
+        if isinstance(i, K) and isinstance(i.v, int):
+            return it.getitem(self.rope_value(it), i, n)
+        raise Fail('symbolic index into a memoryview')
+
+    def abs_iter(self, it):
+        return it.iterate(self.rope_value(it))
+
+    def write(self, it, value):
+        ln = _nbytes(it, value)
+        if ln is None or ln != self.hi - self.lo:
+            raise RaiseEx('ValueError', 'memoryview assignment: lvalue and rvalue have different structures')
+        buf_store(it, self.target, self.lo, self.hi, value)
+
+    def abs_setslice(self, it, lo, hi, value):
+        a, b, _ = slice(lo, hi).indices(self.hi - self.lo)
+        MemView(self.target, self.lo + a, self.lo + max(a, b)).write(it, value)
+
+    def abs_attr(self, it, a, n):
+        if a in ('cast', 'toreadonly', '__enter__'):
+            return Native(lambda it_, args, kw, node: self, 'memoryview.' + a)
+        if a in ('release', '__exit__'):
+            return Native(lambda it_, args, kw, node: K(None), 'memoryview.' + a)
+        if a == 'tobytes':
+            return Native(lambda it_, args, kw, node: self.rope_value(it_), 'memoryview.tobytes')
+        if a == 'nbytes':
+            return K(self.hi - self.lo)
+        if a == 'itemsize':
+            return K(1)
+        if a == 'readonly':
+            return K(False)
+        if a == 'obj':
+            return self.target
+        return None
+
+    def abs_enter(self, it):
+        return self
+
+    def abs_exit(self, it, exc):
+        return False
